@@ -50,6 +50,8 @@ def membership_fact(facts, which):
 def run(ctx):
     P = ctx.program()
     whole_chain_conflict_scan(ctx, P, "R11")
+    from .c04 import start_epoch_is_immutable
+    start_epoch_is_immutable(ctx, P, "R12")
     commit = P.fn("TransactionManager::commit")
     # R8: validation only reads the write sets (a refused commit leaves the transaction Active: whatever commit removed
     # from its write set is missing when it is validated again, and both overlapping writers end up committed)
